@@ -73,6 +73,9 @@ def _bezier_line(c, n, m):
 def _run_bezier_line(c, n, m):
     P, seg, L, line, roots, got, d, w = _bezier_line(c, n, m)
     res = [tuple(c.items(x)) for x in c.items(c.call('bezier.bezier_by_line_intersections', seg, line))]
+    c.ensures('the-root-finder-is-consulted-for-every-curve-and-line', 'p' in got and 'rho' in got)
+    if 'p' not in got or 'rho' not in got:
+        c.cut()
     rho = got['rho']
     co = list(c.items(got['p']))
     t = c.real('t')
